@@ -336,7 +336,7 @@ class Inliner:
                 for m in n.body:
                     if isinstance(m, ast.FunctionDef) and m.name.startswith('_') and not m.name.startswith('__') and not m.decorator_list:
                         self.methods[(n.name, m.name)] = m
-                    elif isinstance(m, ast.FunctionDef) and m.name.startswith('_') and not m.name.startswith('__') and len(m.decorator_list) == 1 \
+                    elif isinstance(m, ast.FunctionDef) and (m.name.startswith('_') or n.name.startswith('_')) and not m.name.startswith('__') and len(m.decorator_list) == 1 \
                             and isinstance(m.decorator_list[0], ast.Name) and m.decorator_list[0].id in ('staticmethod', 'classmethod'):
                         self.static_methods[(n.name, m.name)] = (m, m.decorator_list[0].id)
 
